@@ -167,7 +167,7 @@ func cmdCheck(args []string) int {
 	broken := 0
 	notes := map[string]bool{}
 	inlined := map[string]bool{}
-	var funcs []string
+	funcs := []string{}
 	for _, r := range results {
 		name := r.Contract.Pkg[strings.LastIndex(r.Contract.Pkg, "/")+1:] + "." + r.Contract.Key
 		if r.Err != nil {
@@ -221,7 +221,7 @@ func cmdCheck(args []string) int {
 	solverCount := map[string]int{}
 	var solverTime float64
 	vacuous := 0
-	var knownHit []string
+	knownHit := []string{}
 	sort.SliceStable(obls, func(i, j int) bool { return obls[i].Name < obls[j].Name })
 	for _, o := range obls {
 		solverTime += o.Secs
@@ -285,7 +285,7 @@ func cmdCheck(args []string) int {
 	}
 	sort.Strings(assumedAll)
 	assumedAll = uniq(assumedAll)
-	var assumptions []string
+	assumptions := []string{}
 	for _, a := range assumedAll {
 		assumptions = append(assumptions, "assumed contract (not proved): "+a)
 	}
